@@ -1078,10 +1078,14 @@ def make_projects(ctx, nprog):
         mods = {}
         layout = [((), 'top%d' % pi), (('pk',), '__init__'), (('pk',), 'mod_a'), (('pk', 'sub'), '__init__'),
                   (('pk', 'sub'), 'deep'), (('pk', 'sub'), 'mod_b')]
+        # directories WITHOUT __init__.py between the project root and the file: implicit namespace packages
+        # (top level, nested, and a plain folder inside a regular package); Python imports them as ns.mod_n etc.
+        ns_layout = [(('ns',), 'mod_n'), (('ns', 'inner'), 'mod_i'), (('pk', 'plain'), 'mod_p')]
         rng.shuffle(layout)
-        for pk in (('pk',), ('pk', 'sub')):
+        rng.shuffle(ns_layout)
+        for pk in (('pk',), ('pk', 'sub'), ('ns',), ('ns', 'inner'), ('pk', 'plain')):
             os.makedirs(os.path.join(root, *pk), exist_ok=True)
-        for pkg, mod in layout[:rng.randint(3, 6)]:
+        for pkg, mod in layout[:rng.randint(3, 6)] + ns_layout[:rng.randint(1, 2)]:
             src, objs = gen_valid(rng)
             rel = os.path.join(*pkg, mod + '.py')
             mods[rel] = (src, objs, list(pkg) + ([mod] if mod != '__init__' else []))
